@@ -95,8 +95,15 @@ def describe(desc):
 def construct(case):
     desc = description(case['desc'])
     anc = case.get('anc_init')
-    init = InitialStateContainer.from_ordered_list([STATE[b] for b in case['init']],
-                                                   [STATE[b] for b in anc] if anc is not None else None)
+    if case.get('direct'):
+        # the same logical state through a directly built container: data dictionary in reversed insertion order, ancilla dictionary
+        # sparse (only the non-ZERO entries; an absent key means ZERO) and in reversed order
+        data = {i: STATE[b] for i, b in reversed(list(enumerate(case['init'])))}
+        ancd = {i: STATE[b] for i, b in reversed(list(enumerate(anc or []))) if b}
+        init = InitialStateContainer(initial_states=data, ancilla_initial_states=ancd)
+    else:
+        init = InitialStateContainer.from_ordered_list([STATE[b] for b in case['init']],
+                                                       [STATE[b] for b in anc] if anc is not None else None)
     return construct_repetition_code_circuit(qec_cycles=case['cycles'], description=desc, initial_state=init), desc
 
 
